@@ -1503,7 +1503,6 @@ request_parse(u8 *packet, int length, struct evdns_server_port *port,
 	GET16(additional);
 
 	if (flags & _QR_MASK) return -1; /* Must not be an answer. */
-	flags &= (_RD_MASK|_CD_MASK); /* Only RD and CD get preserved. */
 
 	server_req = mm_malloc(sizeof(struct server_request));
 	if (server_req == NULL) return -1;
@@ -1517,7 +1516,8 @@ request_parse(u8 *packet, int length, struct evdns_server_port *port,
 
 	server_req->port = port;
 	server_req->client = client;
-	server_req->base.flags = flags;
+	/* Only RD and CD get preserved. */
+	server_req->base.flags = flags & (_RD_MASK|_CD_MASK);
 	server_req->base.nquestions = 0;
 	server_req->base.questions = mm_calloc(sizeof(struct evdns_server_question *), questions);
 	if (server_req->base.questions == NULL)
